@@ -7,8 +7,12 @@ from common import hx
 from eth_hash.auto import keccak
 
 ID = "C05"
-LEAN_IMPORTS = ["PyTrie.Props.C05", "PyTrie.Props.C05Batch", "PyTrie.Props.NonVacuity", "PyTrie.Props.FreeExec", "PyTrie.Props.NonVacuity5"]
+LEAN_IMPORTS = ["PyTrie.Props.C05", "PyTrie.Props.C05Batch", "PyTrie.Props.NonVacuity", "PyTrie.Props.FreeExec", "PyTrie.Props.NonVacuity5", "PyTrie.Props.FreeBatch"]
 THEOREMS = [
+    "PyTrie.Props.Free.batch_op_leaves_outer",
+    "PyTrie.Props.Free.abort_restores",
+    "PyTrie.Props.Free.commit_failure_keeps_outer",
+    "PyTrie.Props.Free.commit_adopts_root",
     "PyTrie.Props.C05.abort_restores_world",
     "PyTrie.Props.C05.batch_ops_leave_base",
     "PyTrie.Props.C05.commit_failure_keeps_outer",
